@@ -103,6 +103,38 @@ func (v *VarInt) ReadFrom(r io.Reader) (int64, error) {
 	}
 }
 
+// maxReadChunk bounds how much memory is allocated ahead of the data actually
+// read when a length prefix announces a byte string.
+const maxReadChunk = 64 * 1024
+
+// readBytes reads exactly n bytes from r and returns them together with the number
+// of bytes consumed. The buffer grows with the data that really arrives (at most
+// maxReadChunk ahead of it), so a length prefix of up to 2^64-1 in a short input
+// cannot cause a huge allocation or a makeslice panic. As with io.ReadFull a short
+// read is reported as io.EOF when nothing could be read and io.ErrUnexpectedEOF
+// otherwise.
+func readBytes(r io.Reader, n uint64) ([]byte, int, error) {
+	buf := make([]byte, 0)
+	read := 0
+	for uint64(len(buf)) < n {
+		chunk := n - uint64(len(buf))
+		if chunk > maxReadChunk {
+			chunk = maxReadChunk
+		}
+		tmp := make([]byte, chunk)
+		k, err := io.ReadFull(r, tmp)
+		read += k
+		buf = append(buf, tmp[:k]...)
+		if err != nil {
+			if errors.Is(err, io.EOF) && read > 0 {
+				err = io.ErrUnexpectedEOF
+			}
+			return buf, read, err
+		}
+	}
+	return buf, read, nil
+}
+
 // UpperLimitInc returns true if a number is at the
 // upper limit of a VarInt and will result in a VarInt
 // length change if incremented. The value returned will
